@@ -101,7 +101,7 @@ def run_job(binary, pkgdir, job, shard, nshards, seed, tier, scratch, extra_env)
     if job.get("race"):
         env["GORACE"] = "halt_on_error=0 exitcode=0 log_path=" + os.path.join(scratch, "race-" + tag)
     env.update(extra_env or {})
-    timeout = job.get("timeout", 1500 if tier == "quick" else 7200)
+    timeout = job.get("timeout", 600 if tier == "quick" else 7200)
     args = [binary, "-test.run=" + job["run"], "-test.count=1", "-test.timeout=%ds" % (timeout + 60)]
     if job.get("kind", "rapid") == "rapid":
         args += ["-rapid.checks=%d" % job["checks"], "-rapid.seed=%d" % seed, "-rapid.nofailfile",
